@@ -29,7 +29,7 @@ FAULTS = [None, None, None, 'no-index', 'no-class-file', 'truncated', 'dropped-f
 
 
 def plan(tier, seed):
-    return {'cases': 260 if tier == 'quick' else 3000, 'watchdog_s': 1500 if tier == 'quick' else 10800}
+    return {'cases': 360 if tier == 'quick' else 3000, 'watchdog_s': 1500 if tier == 'quick' else 10800}
 
 
 def make_model(seed):
